@@ -50,11 +50,22 @@ OPERATORS['U+'] = wrap_ufunc(
 )
 
 
+def _empty2value(other):
+    if isinstance(other, str):
+        return ''
+    return False if isinstance(other, bool) else 0
+
+
+def _fold_case(value):  # Excel compares text case-insensitively.
+    return value.upper() if isinstance(value, str) else value
+
+
 def logic_input_parser(x, y):
     if x is sh.EMPTY:
-        x = '' if isinstance(y, str) else 0
+        x = _empty2value(y)
     if y is sh.EMPTY:
-        y = '' if isinstance(x, str) else 0
+        y = _empty2value(x)
+    x, y = _fold_case(x), _fold_case(y)
     return (_get_type_id(x), x), (_get_type_id(y), y)
 
 
